@@ -1408,6 +1408,14 @@ pub fn run(ctx: &Ctx) {
         rule_slots(l);
     }
     if let Some(v) = replay_input(ctx) {
+        // (w25) replay of one oracle-only session
+        if v.get("xsession").is_some() {
+            let o = x_run(&home, &v);
+            x_record(&mut sess, o);
+            sess.nontrivial("replay-x");
+            sess.finish("replay of one recorded oracle-only session", false, json!({}));
+            return;
+        }
         let langs: Vec<Lang> = v["langs"].as_array().map(|a| a.iter().filter_map(|x| x.as_str().and_then(Lang::from_code)).collect()).unwrap_or_default();
         let acts: Vec<Act> = v["actions"].as_array().map(|a| a.iter().filter_map(|x| x.as_str().and_then(Act::parse)).collect()).unwrap_or_default();
         let c = run_case_retry(&home.join("replay"), &langs, || Script::Fixed(acts.clone()), "replay");
@@ -1456,6 +1464,9 @@ pub fn run(ctx: &Ctx) {
         record(&mut sess, c);
         done += 1;
     }
+    // 3. (w25) oracle-only sessions: other language ids, text families, configuration keys, watched-file
+    // events, no-op messages, untitled buffers, reopen under another id
+    x_sessions(&mut sess, ctx, &home, threads);
     let fresh_n = FRESH_COMPUTED.load(std::sync::atomic::Ordering::Relaxed);
     sess.finish(
         "corpus (clean sessions + one witness per recorded finding); random histories of 4–14 client messages (didOpen/didChange/didSave/didClose/didChangeWatchedFiles(delete file | delete directory)/didChangeConfiguration/HarperAddToUserDict/HarperAddToFileDict/HarperIgnoreLint, silent disk writes) over 1–3 URIs (plaintext, markdown, rust, one unsupported language) against the real in-process server; sequential = every configuration request answered at once, concurrent = up to 4 (occasionally 5+) handlers held and released in random order; every history of the sequential shape without a silent configuration change (corpus or random) is also a `srvseq` case (runMacro on seqActs and seqRun, both against the same real run). Non-trivial = ≥3 publications of which ≥1 non-empty; distinct by the op line.",
@@ -1469,4 +1480,603 @@ pub fn run(ctx: &Ctx) {
             "decode": "each publication is decoded into (text version, severity cfg, linter cfg, parser bit, accepted dictionary words, ident dictionary, ignore) and re-encoded by an independent pipeline; the re-encoding must equal the published JSON",
         }),
     );
+}
+
+// ------------------------------------------------------------------------------------------
+// (w25) oracle-only sessions: the call sites, language ids, configuration keys and client
+// messages the histories above never use. Each session is sequential (every message goes to an
+// idle server, its configuration requests are answered at once with the client's configuration,
+// the file on disk equals the buffer before any handler that re-reads it), so none of the recorded
+// findings applies; after EVERY step (each prefix is a history of its own) the last publication of
+// every URI is compared with an independent pipeline (`x_expected`: new dictionaries read from the
+// files on disk, new parser by language id, new `Document`, new `LintGroup`).
+// ------------------------------------------------------------------------------------------
+
+const XUSER_A: &str = "xqusera"; // in dictionary.txt
+const XUSER_B: &str = "xquserb"; // in dictionary-b.txt
+const XFILE_A: &str = "xqfilea"; // in file_dictionaries/<name>
+const XFILE_B: &str = "xqfileb"; // in file_dictionaries-b/<name>
+const XDIALECTS: [&str; 4] = ["American", "British", "Australian", "Canadian"];
+
+#[derive(Clone, Debug, PartialEq)]
+struct XCfg {
+    sev: usize,
+    dialect: usize,
+    isolate: bool,
+    ilt: bool,
+    rules: u8,
+    udict: usize,
+    fdir: usize,
+    /// explicit `null` rule values, an unknown rule name, an unknown top-level key, `codeActions`
+    odd: bool,
+}
+
+const XCFG0: XCfg = XCfg { sev: 0, dialect: 0, isolate: false, ilt: false, rules: 0, udict: 0, fdir: 0, odd: false };
+
+fn x_user_path(c: &XCfg, sdir: &Path) -> PathBuf {
+    sdir.join(["dictionary.txt", "dictionary-b.txt"][c.udict])
+}
+fn x_file_dir(c: &XCfg, sdir: &Path) -> PathBuf {
+    sdir.join(["file_dictionaries", "file_dictionaries-b"][c.fdir])
+}
+
+fn x_linters(c: &XCfg) -> Value {
+    let mut l = linters_json(c.rules);
+    if c.odd {
+        l["SpellCheck"] = Value::Null;
+        l["SentenceCapitalization"] = Value::Null;
+        l["NoSuchRuleZq"] = json!(true);
+    }
+    l
+}
+
+fn x_cfg_json(c: &XCfg, sdir: &Path) -> Value {
+    let mut v = json!({"harper-ls": {
+        "userDictPath": x_user_path(c, sdir).to_string_lossy(),
+        "fileDictPath": x_file_dir(c, sdir).to_string_lossy(),
+        "diagnosticSeverity": SEV[c.sev],
+        "linters": x_linters(c),
+        "dialect": XDIALECTS[c.dialect],
+        "isolateEnglish": c.isolate,
+        "markdown": {"IgnoreLinkTitle": c.ilt},
+    }});
+    if c.odd {
+        v["harper-ls"]["codeActions"] = json!({"ForceStable": true});
+        v["harper-ls"]["noSuchKeyZq"] = json!({"a": [1, null]});
+        v["other-server"] = json!({"dialect": "British"});
+    }
+    v
+}
+
+fn x_words(p: &Path) -> Vec<String> {
+    std::fs::read_to_string(p).map(|s| s.lines().map(|l| l.to_string()).collect()).unwrap_or_default()
+}
+
+static XEXP: once_cell::sync::Lazy<Mutex<HashMap<String, Arc<Value>>>> = once_cell::sync::Lazy::new(|| Mutex::new(HashMap::new()));
+
+/// The diagnostics the property demands for an open document: `text` parsed as `lang_id`, under
+/// configuration `c` and the dictionary files as they are on disk. `None` = no parser for the id.
+fn x_expected(lang_id: &str, uri: &str, text: &str, c: &XCfg, sdir: &Path) -> Option<Arc<Value>> {
+    let user = x_words(&x_user_path(c, sdir));
+    let file = tower_lsp::lsp_types::Url::parse(uri)
+        .ok()
+        .filter(|u| u.scheme() != "untitled")
+        .and_then(|u| file_dict_name(&u).ok())
+        .map(|n| x_words(&x_file_dir(c, sdir).join(n)))
+        .unwrap_or_default();
+    let key = format!("{}\u{1}{}\u{1}{:?}\u{1}{:?}\u{1}{:?}", lang_id, text, (c.sev, c.dialect, c.isolate, c.ilt, c.rules, c.odd), user, file);
+    if let Some(v) = XEXP.lock().unwrap().get(&key) {
+        return Some(v.clone());
+    }
+    let md = crate::frontends::md_opts(c.ilt);
+    let source: Vec<char> = text.chars().collect();
+    let mut dict = MergedDictionary::new();
+    dict.add_dictionary(FstDictionary::curated());
+    let mut ud = MutableDictionary::new();
+    for w in &user {
+        ud.append_word_str(w, WordMetadata::default());
+    }
+    dict.add_dictionary(Arc::new(ud));
+    let mut fd = MutableDictionary::new();
+    for w in &file {
+        fd.append_word_str(w, WordMetadata::default());
+    }
+    dict.add_dictionary(Arc::new(fd));
+    // source files: the file's own identifiers are accepted and collapsed
+    let ts = CommentParser::new_from_language_id(lang_id, md);
+    let lhs = matches!(lang_id, "literate haskell" | "lhaskell");
+    let ident = if let Some(ts) = &ts {
+        ts.create_ident_dict(&source)
+    } else if lhs {
+        harper_literate_haskell::LiterateHaskellParser::new_markdown(md).create_ident_dict(&source, md)
+    } else {
+        None
+    };
+    let collapse = ident.is_some();
+    if let Some(id) = ident {
+        dict.add_dictionary(Arc::new(id));
+    }
+    let dict = Arc::new(dict);
+    let mut parser: Box<dyn Parser> = crate::frontends::parser_for(lang_id, c.ilt)?;
+    if collapse {
+        parser = Box::new(CollapseIdentifiers::new(parser, Box::new(dict.clone())));
+    }
+    if c.isolate {
+        parser = Box::new(harper_core::parsers::IsolateEnglish::new(parser, dict.clone()));
+    }
+    let doc = Document::new(text, &parser, &dict);
+    let dialect: harper_core::Dialect = serde_json::from_value(json!(XDIALECTS[c.dialect])).unwrap();
+    let lint_config: harper_core::linting::LintGroupConfig = serde_json::from_value(x_linters(c)).unwrap();
+    let mut linter = LintGroup::new_curated(dict.clone(), dialect).with_lint_config(lint_config);
+    linter.config.fill_with_curated();
+    let lints = linter.lint(&doc);
+    use crate::config::DiagnosticSeverity as DS;
+    let sev = [DS::Hint, DS::Information, DS::Warning, DS::Error][c.sev];
+    let v = Arc::new(serde_json::to_value(lints_to_diagnostics(doc.get_full_content(), &lints, sev)).unwrap());
+    XEXP.lock().unwrap().insert(key, v.clone());
+    Some(v)
+}
+
+const X_FAMILIES: [&str; 8] = ["ascii", "non-ascii", "crlf", "lone-cr", "empty", "whitespace-only", "long-word", "long-document"];
+
+/// prose of version `ver` in text family `fam`: a marker word, one spelling per dialect, the four
+/// dictionary probes, a repeated word, a wrong article, a link title and a German sentence
+fn x_prose(ver: usize, fam: usize) -> String {
+    let base = format!(
+        "The {} word, colour and color, {} and {} and {} and {} are is is here with an test and [{}](https://example.com) too. Das ist ein ganz kurzer deutscher Satz hier.",
+        marker(7, ver),
+        XUSER_A,
+        XUSER_B,
+        XFILE_A,
+        XFILE_B,
+        TITLE
+    );
+    match fam % 8 {
+        0 => base,
+        1 => format!("Héllo 😀 ａｂｃ e\u{301}galité — {} Ünd 𝒳 ende {}.", base, marker(8, ver)),
+        2 => format!("{}\r\n", base.replace(". ", ".\r\n")),
+        3 => base.replace(". ", ".\r"),
+        4 => String::new(),
+        5 => " \n\t \n".to_string(),
+        6 => format!("{} A zq{}x word.", base, "y".repeat(180)),
+        _ => (0..10).map(|i| format!("{} Line {}.\n", base, i)).collect(),
+    }
+}
+
+/// `prose` as the content of a file of language `id` (source files: comments only, so the
+/// identifier dictionary is empty and `c09-ident-dict-dropped` cannot apply)
+fn x_embed(id: &str, prose: &str) -> String {
+    let lead = match id {
+        "python" | "nix" | "cmake" | "ruby" | "toml" | "shellscript" => "# ",
+        "lua" | "haskell" => "-- ",
+        "html" => return format!("<html><body><p>{}</p></body></html>", prose),
+        _ if CommentParser::new_from_language_id(id, MarkdownOptions::default()).is_some() => "// ",
+        _ => return prose.to_string(),
+    };
+    let body: String = prose.split('\n').map(|l| format!("{}{}\n", lead, l)).collect();
+    if id == "php" { format!("<?php\n{}", body) } else { body }
+}
+
+struct XDoc {
+    uri: String,
+    path: Option<PathBuf>,
+    lang: String,
+    buf: Option<String>,
+}
+
+struct XSess {
+    ls: LsSession,
+    sdir: PathBuf,
+    cfg: XCfg,
+    docs: Vec<XDoc>,
+    steps: Vec<String>,
+    checks: usize,
+    nonempty: usize,
+    fails: Vec<(String, String)>,
+    class: String,
+    /// URIs of `deleted` watched-file events sent so far
+    deleted: Vec<String>,
+}
+
+impl XSess {
+    fn start(sdir: &Path, class: &str) -> Result<XSess, LsError> {
+        let _ = std::fs::remove_dir_all(sdir);
+        std::fs::create_dir_all(sdir.join("docs")).unwrap();
+        std::fs::write(sdir.join("dictionary.txt"), format!("{}\n", XUSER_A)).unwrap();
+        std::fs::write(sdir.join("dictionary-b.txt"), format!("{}\n", XUSER_B)).unwrap();
+        let mut ls = LsSession::start()?;
+        ls.max_wait = std::time::Duration::from_secs(30);
+        ls.initialize(&x_cfg_json(&XCFG0, sdir))?;
+        Ok(XSess { ls, sdir: sdir.to_path_buf(), cfg: XCFG0, docs: vec![], steps: vec![], checks: 0, nonempty: 0, fails: vec![], class: class.to_string(), deleted: vec![] })
+    }
+    /// a document under the session directory (`rel` may contain directories); its two file dictionaries are written
+    fn doc(&mut self, rel: &str, lang: &str) -> usize {
+        let path = self.sdir.join("docs").join(rel);
+        std::fs::create_dir_all(path.parent().unwrap()).unwrap();
+        let uri = file_url(&path);
+        if let Some(name) = tower_lsp::lsp_types::Url::parse(&uri).ok().and_then(|u| file_dict_name(&u).ok()) {
+            for (d, w) in [("file_dictionaries", XFILE_A), ("file_dictionaries-b", XFILE_B)] {
+                std::fs::create_dir_all(self.sdir.join(d)).unwrap();
+                std::fs::write(self.sdir.join(d).join(&name), format!("{}\n", w)).unwrap();
+            }
+        }
+        self.docs.push(XDoc { uri, path: Some(path), lang: lang.to_string(), buf: None });
+        self.docs.len() - 1
+    }
+    fn untitled(&mut self, name: &str, lang: &str) -> usize {
+        self.docs.push(XDoc { uri: format!("untitled:{}", name), path: None, lang: lang.to_string(), buf: None });
+        self.docs.len() - 1
+    }
+    fn answer(&mut self) -> Result<(), LsError> {
+        let c = x_cfg_json(&self.cfg, &self.sdir);
+        let mut n = 0;
+        while self.ls.pending_count() > 0 {
+            self.ls.answer_config_at(0, &c)?;
+            n += 1;
+            if n > 64 {
+                return Err(LsError::Timeout("configuration requests keep coming".into()));
+            }
+        }
+        Ok(())
+    }
+    fn write(&mut self, d: usize, text: &str) {
+        if let Some(p) = &self.docs[d].path {
+            std::fs::write(p, text).unwrap();
+        }
+    }
+    fn open(&mut self, d: usize, text: &str) -> Result<(), LsError> {
+        self.write(d, text);
+        self.docs[d].buf = Some(text.to_string());
+        let (u, l) = (self.docs[d].uri.clone(), self.docs[d].lang.clone());
+        self.ls.notify("textDocument/didOpen", did_open(&u, &l, text))?;
+        self.answer()?;
+        self.check(&format!("open {} as {}", d, l))
+    }
+    /// didChange (the file is written first when `save`, and didSave follows)
+    fn change(&mut self, d: usize, text: &str, save: bool) -> Result<(), LsError> {
+        self.docs[d].buf = Some(text.to_string());
+        let u = self.docs[d].uri.clone();
+        let ver = self.steps.len() as i64 + 2;
+        self.ls.notify("textDocument/didChange", did_change(&u, ver, text))?;
+        self.answer()?;
+        self.check(&format!("change {}", d))?;
+        if save {
+            self.write(d, text);
+            self.ls.notify("textDocument/didSave", did_save(&u))?;
+            self.answer()?;
+            self.check(&format!("save {}", d))?;
+        }
+        Ok(())
+    }
+    fn close(&mut self, d: usize) -> Result<(), LsError> {
+        self.docs[d].buf = None;
+        let u = self.docs[d].uri.clone();
+        self.ls.notify("textDocument/didClose", did_close(&u))?;
+        self.answer()?;
+        self.check(&format!("close {}", d))
+    }
+    /// the client's configuration becomes `c` and didChangeConfiguration announces it
+    fn config(&mut self, c: XCfg) -> Result<(), LsError> {
+        self.cfg = c;
+        let j = x_cfg_json(&self.cfg, &self.sdir);
+        self.ls.notify("workspace/didChangeConfiguration", json!({"settings": j}))?;
+        self.answer()?;
+        self.check(&format!("config {:?}", self.cfg))
+    }
+    /// workspace/didChangeWatchedFiles with one event (`typ` 1 created, 2 changed, 3 deleted); the
+    /// client's own view: a deleted file / a file below a deleted directory is no longer open
+    fn watched(&mut self, uri: &str, typ: u64) -> Result<(), LsError> {
+        if typ == 3 {
+            self.deleted.push(uri.to_string());
+            for d in self.docs.iter_mut() {
+                if d.uri == uri || d.uri.starts_with(&format!("{}/", uri)) {
+                    d.buf = None;
+                    if let Some(p) = &d.path {
+                        let _ = std::fs::remove_file(p);
+                    }
+                }
+            }
+        }
+        self.ls.notify("workspace/didChangeWatchedFiles", json!({"changes": [{"uri": uri, "type": typ}]}))?;
+        self.answer()?;
+        self.check(&format!("watched-files type {} {}", typ, uri.rsplit('/').next().unwrap_or("")))
+    }
+    /// a message that must leave every document's last word as it is
+    fn other(&mut self, what: &str, method: &str, params: Value, request: bool) -> Result<(), LsError> {
+        if request {
+            let c = x_cfg_json(&self.cfg, &self.sdir);
+            self.ls.request_sync(method, params, &c)?;
+        } else {
+            self.ls.notify(method, params)?;
+        }
+        self.answer()?;
+        self.check(what)
+    }
+    /// O after a step: every open document's last publication is the fresh lint of its buffer, every
+    /// other URI's is empty or absent
+    fn check(&mut self, step: &str) -> Result<(), LsError> {
+        self.steps.push(step.to_string());
+        for d in &self.docs {
+            self.checks += 1;
+            let last = self.ls.last_publication(&d.uri).cloned();
+            let want = d.buf.as_ref().and_then(|t| x_expected(&d.lang, &d.uri, t, &self.cfg, &self.sdir));
+            let ok = match (&want, &last) {
+                (Some(w), Some(l)) => **w == *l,
+                (Some(_), None) => false,
+                (None, Some(l)) => l.as_array().map(|a| a.is_empty()).unwrap_or(false),
+                (None, None) => true,
+            };
+            if want.as_ref().map(|w| w.as_array().map(|a| !a.is_empty()).unwrap_or(false)).unwrap_or(false) {
+                self.nonempty += 1;
+            }
+            if ok {
+                continue;
+            }
+            let n = |v: &Option<Value>| v.as_ref().and_then(|x| x.as_array().map(|a| a.len() as i64)).unwrap_or(-1);
+            // an open document emptied by the deletion of ANOTHER path whose URI is a string prefix of its own
+            let prefix_sibling = want.is_some()
+                && last.as_ref().and_then(|l| l.as_array().map(|a| a.is_empty())).unwrap_or(false)
+                && self.deleted.iter().any(|p| d.uri.starts_with(p.as_str()) && d.uri != *p && !d.uri[p.len()..].starts_with('/'));
+            let class = if prefix_sibling { "c09-delete-uri-string-prefix".to_string() } else { self.class.clone() };
+            self.fails.push((
+                class,
+                format!(
+                    "after step #{} `{}` (steps: {}): {} ({}, {}) last publication has {} diagnostics, the {} demands {}; first differing: got {} want {}",
+                    self.steps.len() - 1,
+                    step,
+                    self.steps.join(" / "),
+                    d.uri.rsplit('/').next().unwrap_or(&d.uri),
+                    d.lang,
+                    if d.buf.is_some() { "open" } else { "closed" },
+                    n(&last),
+                    if want.is_some() { "fresh lint of the newest text under the current configuration and dictionaries" } else { "property (closed / deleted / no parser)" },
+                    n(&want.as_ref().map(|w| (**w).clone())),
+                    trunc(&x_first_diff(&last, &want.as_ref().map(|w| (**w).clone()), true), 200),
+                    trunc(&x_first_diff(&last, &want.as_ref().map(|w| (**w).clone()), false), 200),
+                ),
+            ));
+        }
+        Ok(())
+    }
+}
+
+fn x_first_diff(got: &Option<Value>, want: &Option<Value>, show_got: bool) -> String {
+    let e = vec![];
+    let g = got.as_ref().and_then(|v| v.as_array()).unwrap_or(&e);
+    let w = want.as_ref().and_then(|v| v.as_array()).unwrap_or(&e);
+    let i = (0..g.len().max(w.len())).find(|i| g.get(*i) != w.get(*i)).unwrap_or(0);
+    let pick = if show_got { g.get(i) } else { w.get(i) };
+    pick.map(|x| json!({"range": x["range"], "severity": x["severity"], "message": x["message"]}).to_string()).unwrap_or("-".into())
+}
+
+pub struct XOut {
+    family: String,
+    input: Value,
+    checks: usize,
+    nonempty: usize,
+    steps: usize,
+    fails: Vec<(String, String)>,
+    error: Option<String>,
+}
+
+/// every language id × one text family: open, change (+ save), configuration change, change, an
+/// empty didChange, close
+fn x_lang_script(x: &mut XSess, id: &str, fam: usize) -> Result<(), LsError> {
+    let d = x.doc(&format!("l{}.src", fam), id);
+    x.open(d, &x_embed(id, &x_prose(0, 0)))?;
+    x.change(d, &x_embed(id, &x_prose(1, fam)), true)?;
+    x.config(XCfg { sev: 2, dialect: 1, rules: 1, ilt: true, ..XCFG0 })?;
+    x.change(d, &x_embed(id, &x_prose(2, fam + 1)), false)?;
+    let u = x.docs[d].uri.clone();
+    x.other("didChange without content changes", "textDocument/didChange", json!({"textDocument": {"uri": u, "version": 99}, "contentChanges": []}), false)?;
+    x.change(d, &x_embed(id, &x_prose(3, fam)), true)?;
+    x.close(d)
+}
+
+/// three documents open at once; the configuration walks through every key
+fn x_config_script(x: &mut XSess, variant: usize) -> Result<(), LsError> {
+    let a = x.doc("a.txt", "plaintext");
+    let b = x.doc("b.md", "markdown");
+    let c = x.doc("c.py", "python");
+    x.open(a, &x_prose(0, variant))?;
+    x.open(b, &x_prose(0, variant + 1))?;
+    x.open(c, &x_embed("python", &x_prose(0, 0)))?;
+    let mut walk: Vec<XCfg> = vec![];
+    for dialect in [1, 2, 3, 0] {
+        walk.push(XCfg { dialect, ..XCFG0 });
+    }
+    walk.push(XCfg { isolate: true, ..XCFG0 });
+    walk.push(XCfg { udict: 1, ..XCFG0 });
+    walk.push(XCfg { fdir: 1, ..XCFG0 });
+    walk.push(XCfg { udict: 1, fdir: 1, dialect: 3, sev: 3, ..XCFG0 });
+    walk.push(XCfg { odd: true, ..XCFG0 });
+    walk.push(XCfg { ilt: true, rules: 3, sev: 1, ..XCFG0 });
+    walk.push(XCfg { isolate: true, dialect: 1, odd: true, udict: 1, ..XCFG0 });
+    walk.push(XCFG0);
+    walk.push(XCFG0); // the same configuration announced twice
+    let k = variant % walk.len();
+    walk.rotate_left(k);
+    for (i, cfg) in walk.into_iter().enumerate() {
+        x.config(cfg)?;
+        if i % 3 == 1 {
+            x.change(a, &x_prose(i + 1, variant + i), true)?;
+            x.change(b, &x_prose(i + 1, variant), true)?;
+        }
+    }
+    x.close(b)?;
+    x.config(XCfg { dialect: 2, sev: 2, ..XCFG0 })?;
+    x.close(a)?;
+    x.close(c)
+}
+
+/// workspace/didChangeWatchedFiles: created / changed events and deletions of OTHER paths leave an
+/// open document's diagnostics alone; a deleted file / directory empties exactly what is below it
+fn x_watched_script(x: &mut XSess) -> Result<(), LsError> {
+    let d1 = x.doc("d1.txt", "plaintext");
+    let bak = x.doc("d1.txt.bak", "plaintext");
+    let sx = x.doc("sub/x.md", "markdown");
+    let sy = x.doc("sub2/y.md", "markdown");
+    for (i, d) in [d1, bak, sx, sy].into_iter().enumerate() {
+        x.open(d, &x_prose(i, 0))?;
+    }
+    let u1 = x.docs[d1].uri.clone();
+    x.watched(&u1, 1)?;
+    x.watched(&u1, 2)?;
+    let dir = u1.rsplit_once('/').unwrap().0.to_string();
+    x.watched(&format!("{}/never-opened.txt", dir), 3)?;
+    x.other("watched-files with no event", "workspace/didChangeWatchedFiles", json!({"changes": []}), false)?;
+    x.watched(&format!("{}/sub", dir), 3)?;
+    x.change(sy, &x_prose(9, 1), true)?;
+    x.watched(&u1, 3)?;
+    x.change(bak, &x_prose(9, 2), true)?;
+    x.watched(&dir, 3)
+}
+
+/// requests and commands that do not concern the text: the last word stays
+fn x_noop_script(x: &mut XSess) -> Result<(), LsError> {
+    let a = x.doc("n.md", "markdown");
+    x.open(a, &x_prose(0, 1))?;
+    let u = x.docs[a].uri.clone();
+    x.other("HarperRecordLint (malformed)", "workspace/executeCommand", json!({"command": "HarperRecordLint", "arguments": ["{}"]}), true)?;
+    x.other("HarperRecordLint", "workspace/executeCommand", json!({"command": "HarperRecordLint", "arguments": ["{\"LintConfigUpdate\":{\"AnA\":true}}"]}), true)?;
+    x.other("unknown command", "workspace/executeCommand", json!({"command": "HarperNoSuchCommand", "arguments": ["x", u]}), true)?;
+    x.other("command without arguments", "workspace/executeCommand", json!({"command": "HarperAddToUserDict", "arguments": []}), true)?;
+    x.other("add-to-user-dict without a URI", "workspace/executeCommand", json!({"command": "HarperAddToUserDict", "arguments": []}), true)?;
+    x.other("ignore-lint with a malformed lint", "workspace/executeCommand", json!({"command": "HarperIgnoreLint", "arguments": [u, {"span": "x"}]}), true)?;
+    x.other("ignore-lint for a URI that is not open", "workspace/executeCommand", json!({"command": "HarperIgnoreLint", "arguments": [format!("{}.other", u), {}]}), true)?;
+    x.other("codeAction", "textDocument/codeAction", json!({"textDocument": {"uri": u}, "range": {"start": {"line": 0, "character": 4}, "end": {"line": 0, "character": 9}}, "context": {"diagnostics": []}}), true)?;
+    x.other("codeAction for a URI that is not open", "textDocument/codeAction", json!({"textDocument": {"uri": format!("{}.other", u)}, "range": {"start": {"line": 0, "character": 0}, "end": {"line": 0, "character": 1}}, "context": {"diagnostics": []}}), true)?;
+    x.change(a, &x_prose(1, 0), true)?;
+    x.close(a)
+}
+
+/// unsaved buffers (`untitled:` URIs): no file, no file dictionary
+fn x_untitled_script(x: &mut XSess) -> Result<(), LsError> {
+    let a = x.untitled("Untitled-1", "plaintext");
+    let b = x.untitled("Untitled-2", "markdown");
+    x.open(a, &x_prose(0, 0))?;
+    x.open(b, &x_prose(0, 1))?;
+    x.change(a, &x_prose(1, 2), false)?;
+    x.change(b, &x_prose(1, 0), false)?;
+    // severity, rules and dialect are applied without re-reading the (absent) file
+    x.config(XCfg { sev: 3, rules: 2, dialect: 1, ..XCFG0 })?;
+    let ua = x.docs[a].uri.clone();
+    x.other("add-to-file-dict on an untitled document", "workspace/executeCommand", json!({"command": "HarperAddToFileDict", "arguments": ["zqnothing", ua]}), true)?;
+    x.change(a, &x_prose(2, 1), false)?;
+    x.close(a)?;
+    x.change(b, &x_prose(2, 7), false)?;
+    x.close(b)
+}
+
+/// one URI closed and reopened under other language ids (also ids without a parser)
+fn x_reopen_script(x: &mut XSess) -> Result<(), LsError> {
+    let r = x.doc("r.txt", "markdown");
+    let s = x.doc("s.txt", "plaintext");
+    let t = x_prose(0, 0);
+    x.open(r, &t)?;
+    x.open(s, &t)?; // two documents with the same text
+    x.close(r)?;
+    for (i, id) in ["plaintext", "klingon", "html", "mail", "text", "gitcommit", "git-commit", "literate haskell", "lhaskell", "typst", "markdown"].iter().enumerate() {
+        x.docs[r].lang = id.to_string();
+        x.open(r, &x_embed(id, &x_prose(i + 1, i)))?;
+        x.change(r, &x_embed(id, &x_prose(i + 20, 0)), i % 2 == 0)?;
+        x.close(r)?;
+    }
+    x.close(s)
+}
+
+fn x_run(home: &Path, input: &Value) -> XOut {
+    let family = input["xsession"].as_str().unwrap_or("").to_string();
+    let variant = input["variant"].as_u64().unwrap_or(0) as usize;
+    let id = input["lang"].as_str().unwrap_or("plaintext").to_string();
+    let sdir = home.join(format!("x-{}-{}-{}", family, id.replace(' ', "_"), variant));
+    let class = format!("c09-x-{}", family);
+    let mut out = XOut { family: family.clone(), input: input.clone(), checks: 0, nonempty: 0, steps: 0, fails: vec![], error: None };
+    let mut x = match XSess::start(&sdir, &class) {
+        Ok(x) => x,
+        Err(e) => {
+            out.error = Some(e.to_string());
+            return out;
+        }
+    };
+    let r = match family.as_str() {
+        "language" => x_lang_script(&mut x, &id, variant),
+        "config" => x_config_script(&mut x, variant),
+        "watched" => x_watched_script(&mut x),
+        "noop" => x_noop_script(&mut x),
+        "untitled" => x_untitled_script(&mut x),
+        "reopen" => x_reopen_script(&mut x),
+        _ => Ok(()),
+    };
+    if let Err(e) = r {
+        out.error = Some(format!("{} (after steps: {})", e, x.steps.join(" / ")));
+    }
+    out.checks = x.checks;
+    out.nonempty = x.nonempty;
+    out.steps = x.steps.len();
+    out.fails = std::mem::take(&mut x.fails);
+    drop(x);
+    let _ = std::fs::remove_dir_all(&sdir);
+    out
+}
+
+fn x_record(sess: &mut Session, o: XOut) {
+    for _ in 0..o.checks {
+        sess.o();
+    }
+    sess.count(&format!("x:session:{}", o.family));
+    sess.add("x:checks", o.checks as u64);
+    sess.add("x:checks-nonempty-expected", o.nonempty as u64);
+    sess.add("x:steps", o.steps as u64);
+    if o.family == "language" {
+        sess.count(&format!("x:lang:{}", o.input["lang"].as_str().unwrap_or("")));
+        sess.count(&format!("x:text:{}", X_FAMILIES[o.input["variant"].as_u64().unwrap_or(0) as usize % 8]));
+    }
+    if o.nonempty > 0 {
+        sess.nontrivial(&o.input.to_string());
+    }
+    sess.monitor("every wait on the server finished before its deadline", o.error.is_none());
+    if let Some(e) = &o.error {
+        let class = if e.contains("panicked") { "server-panic" } else { "server-timeout" };
+        sess.fail(class, format!("x-session {}: {}", o.input, e), o.input.clone(), None);
+    }
+    for (class, desc) in o.fails {
+        sess.fail(&class, desc, o.input.clone(), None);
+    }
+}
+
+/// the job list: every language id (one text family each, chosen by the seed; thorough: all 8),
+/// all families for the four prose languages, the configuration walk, watched files, no-op
+/// messages, untitled buffers, reopen-under-another-id
+fn x_jobs(ctx: &Ctx) -> Vec<Value> {
+    let mut jobs: Vec<Value> = vec![];
+    let thorough = ctx.tier == Tier::Thorough;
+    // tree-sitter-dart can hang on malformed input (recorded under C01); the server has no watchdog
+    let ids: Vec<String> = crate::frontends::language_ids().into_iter().filter(|i| i != "dart").collect();
+    for (i, id) in ids.iter().enumerate() {
+        // quick: the four prose languages get four families each (which ones rotates with the seed)
+        let prose = matches!(id.as_str(), "plaintext" | "markdown" | "html" | "typst");
+        for fam in 0..8 {
+            if thorough || (prose && (fam + i + ctx.seed as usize) % 2 == 0) || fam == (i + ctx.seed as usize) % 8 {
+                jobs.push(json!({"xsession": "language", "lang": id, "variant": fam}));
+            }
+        }
+    }
+    for v in 0..(if thorough { 14 } else { 2 }) {
+        jobs.push(json!({"xsession": "config", "variant": v + ctx.seed as usize}));
+    }
+    for f in ["watched", "noop", "untitled", "reopen"] {
+        jobs.push(json!({"xsession": f, "variant": 0}));
+    }
+    jobs
+}
+
+fn x_sessions(sess: &mut Session, ctx: &Ctx, home: &Path, threads: usize) {
+    let jobs = x_jobs(ctx);
+    let t0 = std::time::Instant::now();
+    let outs = par_map(jobs.len(), threads, |i| x_run(home, &jobs[i]));
+    for o in outs {
+        x_record(sess, o);
+    }
+    sess.add("x:wall-ms", t0.elapsed().as_millis() as u64);
 }
